@@ -73,14 +73,22 @@ func firstDiff(a, b []byte) int {
 
 // containers over an element set, width <= w
 func containers(elems []*vals.Spec, w int, f func(s *vals.Spec)) {
-	keys := []string{"k", "k2", "", "k3"}
-	ikeys := []int32{7, -1, 0, math.MinInt32}
+	// the empty string and 0 are the values an exhausted key enumeration yields: they are legal keys and
+	// appear first and second
+	keys := []string{"k", "", "k2", "k3"}
+	ikeys := []int32{7, 0, -1, math.MinInt32}
+	keysB := []string{"", "k", "k2", "k3"}
+	ikeysB := []int32{0, 7, -1, math.MinInt32}
 	var rec func(items []*vals.Spec)
 	rec = func(items []*vals.Spec) {
 		n := len(items)
 		f(&vals.Spec{T: vals.TList, Items: append([]*vals.Spec{}, items...)})
 		f(&vals.Spec{T: vals.TMap, Keys: keys[:n], Items: append([]*vals.Spec{}, items...)})
 		f(&vals.Spec{T: vals.TIMap, IKeys: ikeys[:n], Items: append([]*vals.Spec{}, items...)})
+		if n > 0 {
+			f(&vals.Spec{T: vals.TMap, Keys: keysB[:n], Items: append([]*vals.Spec{}, items...)})
+			f(&vals.Spec{T: vals.TIMap, IKeys: ikeysB[:n], Items: append([]*vals.Spec{}, items...)})
+		}
 		if n == w {
 			return
 		}
